@@ -47,7 +47,7 @@ MC = {
                            "writers only: <=2 runs of length 0..3, 3 ops, counts 0..4")],
 }
 REPLAY_SAMPLE = {"quick": 1200, "thorough": 15000}
-RANDOM_STEPS = {"quick": 2500, "thorough": 100000}
+RANDOM_STEPS = {"quick": 4000, "thorough": 100000}
 
 
 def write_cfg(ctx, name, consts, invariants, export=True):
@@ -188,7 +188,11 @@ def coverage_gate(ctx, stats, events):
             elif op not in ("split_at", "commit") and not c.get("moved"):
                 need.append("%s:%s never moved a byte" % (tr, op))
             elif op.startswith("write") and not (c.get("err") or c.get("panic")):
-                need.append("%s:%s never failed" % (tr, op))
+                # write_obj is write_all on the bytes of the object: one failing flavour is enough
+                twin = {"write_obj": "write_all", "write_all": "write_obj"}.get(op)
+                c2 = stats.get("%s:%s" % (tr, twin), {}) if twin else {}
+                if not (c2.get("err") or c2.get("panic")):
+                    need.append("%s:%s never failed" % (tr, op))
     if ctx.pid == "C04":
         for op in FVS_ENTRY:
             if not stats.get("fvs:%s" % op, {}).get("calls"):
